@@ -40,7 +40,7 @@ def _lines(ctx, L):
 
 
 def correspondence(ctx):
-    L = 5 if ctx.thorough else 4
+    L = 6 if ctx.thorough else 4
     jobs = _lines(ctx, L)
     lines = ["validate %s" % B.cons_line(c) for c in jobs]
     answers = common.run_model(lines)
